@@ -371,9 +371,20 @@ Definition proj_lane (l : N) (fs : list frame) : list frame := filter (fun f => 
 Definition all_lanes : list N := [0; 1; 2; 3; 4; 5; 6; 7; 1007; 1008; 1009; 1010].
 Definition all_remotes : list N := [1; 2; 3; 4].
 
+(* When a remote is removed while frames for it are still queued, which of them had been written depends on
+   that order too: for such a remote the two streams of a lane need only agree as far as both go. *)
+Fixpoint prefix_compat {A} (eqb : A -> A -> bool) (a b : list A) : bool :=
+  match a, b with
+  | x :: a', y :: b' => eqb x y && prefix_compat eqb a' b'
+  | _, _ => true
+  end.
+Definition removed_remote (r : N) (ops : list wop) : bool :=
+  existsb (fun o => match o with ORemoveRemote r' => r =? r' | _ => false end) ops.
+
 Definition same_streams (ops : list wop) (a b : list (list frame)) : bool :=
   Nat.eqb (length a) (length b) &&
-  forallb (fun r => forallb (fun l => outs_eqb frame_eqb (proj_lane l (frames_at r ops a)) (proj_lane l (frames_at r ops b)))
+  forallb (fun r => forallb (fun l => (if removed_remote r ops then prefix_compat frame_eqb else outs_eqb frame_eqb)
+                                        (proj_lane l (frames_at r ops a)) (proj_lane l (frames_at r ops b)))
                             all_lanes) all_remotes &&
   (* nothing is written by an operation other than a write completion *)
   forallb (fun p => match fst p with ODone _ => true | _ => match snd p with [] => true | _ => false end end)
